@@ -106,13 +106,17 @@ func runAll(r runFn) []runOut {
 
 // immut tracks the first compiled runnable of an attempt.
 type immut struct {
-	r      runFn
-	before []runOut
-	stable []bool
+	r       runFn
+	control func() runFn // the same construction on fresh objects, compiled once, never touched again
+	before  []runOut
+	stable  []bool
 }
 
-func newImmut(r runFn, c *checker) *immut {
-	m := &immut{r: r}
+// confirmRuns: a difference counts only if it is persistent (see confirm).
+const confirmRuns = 30
+
+func newImmut(r runFn, control func() runFn, c *checker) *immut {
+	m := &immut{r: r, control: control}
 	m.before = runAll(r)
 	again := runAll(r)
 	m.stable = make([]bool, len(runInputs))
@@ -126,12 +130,40 @@ func newImmut(r runFn, c *checker) *immut {
 	return m
 }
 
+// confirm separates a runnable that was changed from a run whose outcome depends on scheduling
+// (e.g. a workflow node without a path to END races with the end of the run; in Stream mode such a
+// node may fail where it does not in Invoke mode): the difference must persist - r never gives the
+// old outcome again in confirmRuns runs - and an untouched control built by the same calls on fresh
+// objects must give the old outcome in every one of confirmRuns runs.
+func (m *immut) confirm(r runFn, i int, c *checker) bool {
+	in, want := runInputs[i], m.before[i]
+	for k := 0; k < confirmRuns; k++ {
+		if r(in).same(want) {
+			c.rep.Count("differences_not_persistent_skipped", 1)
+			return false
+		}
+	}
+	ctl := m.control()
+	if ctl == nil {
+		c.rep.Count("differences_without_control_skipped", 1)
+		return false
+	}
+	for k := 0; k < confirmRuns; k++ {
+		if !ctl(in).same(want) {
+			c.rep.Count("differences_with_irreproducible_control_skipped", 1)
+			return false
+		}
+	}
+	c.rep.Count("runnable_runs", 2*confirmRuns)
+	return true
+}
+
 // changed re-runs the first runnable and reports the first input whose outcome differs.
 func (m *immut) changed(c *checker) (bool, string) {
 	now := runAll(m.r)
 	c.rep.Count("runnable_runs", int64(len(runInputs)))
 	for i := range now {
-		if m.stable[i] && !now[i].same(m.before[i]) {
+		if m.stable[i] && !now[i].same(m.before[i]) && m.confirm(m.r, i, c) {
 			return true, fmt.Sprintf("input %q: before %s, afterwards %s", runInputs[i], m.before[i], now[i])
 		}
 	}
@@ -142,11 +174,7 @@ func (m *immut) differs(other runFn, c *checker) (bool, string) {
 	now := runAll(other)
 	c.rep.Count("runnable_runs", int64(len(runInputs)))
 	for i := range now {
-		if m.stable[i] && !now[i].same(m.before[i]) {
-			// the second runnable may itself be irreproducible: look twice
-			if again := other(runInputs[i]); !again.same(now[i]) {
-				continue
-			}
+		if m.stable[i] && !now[i].same(m.before[i]) && m.confirm(other, i, c) {
 			return true, fmt.Sprintf("input %q: first runnable %s, re-compiled runnable %s", runInputs[i], m.before[i], now[i])
 		}
 	}
@@ -264,7 +292,15 @@ func (c *checker) checkSeq(s *Seq) {
 					}
 				}
 				if op.K == "K" && res.class() == 'o' && agreeSoFar && i == okCompile {
-					im, imAt = newImmut(at.inst.last(), c), i
+					upto := i
+					control := func() runFn {
+						inst := newInstance(s.FE, s.State)
+						for _, o := range ops[:upto+1] {
+							inst.apply(o)
+						}
+						return inst.last()
+					}
+					im, imAt = newImmut(at.inst.last(), control, c), i
 					ext = append(append([]Op(nil), ops...), postOps(s.FE, op.Opt)...)
 					for j := len(ops); j < len(ext); j++ {
 						na, rule := ref.predict(ext[j])
